@@ -469,7 +469,7 @@ class CallMixin(ExprMixin):
                 return [(st, V(ty, recv.t))]
         if isinstance(ty, Set):
             if name in ("add", "discard", "remove"):
-                x = T.coerce(args[0], ty.elem)
+                x = self.coerce_to(st, args[0], ty.elem, name)
                 if x is None:
                     raise Unsupported("set.%s elem type %s vs %s" % (name, args[0].ty, ty.elem))
                 if name == "remove":
